@@ -19,10 +19,14 @@ def check_C01(tier):
     reps = run_native(b, ['--prop', 'C01', '--seed', str(seed()), '--cases', str(cases), '--known', known_tsv('C01')], NCPU, 'C01')
     agg = Agg('C01')
     agg.add(reps)
+    fz = {}
+    if tier == 'thorough':
+        # coverage-guided campaign on the same oracle (climbs into deep level schemes)
+        fz = _fuzz('fuzz_refdiff', ['fuzz/fuzz_refdiff.cc'], 'C01', secs=int(os.environ.get('VERIF_C01_FUZZ_SECS', '120')), jobs=NCPU, agg=agg, max_len=1024, ref=True)
     rule = ('case = (reference background nuclide, steered deviate tape derived from VERIF_SEED and the case index); %d tapes per nuclide; '
             'non-trivial & distinct = distinct (nuclide, decay-path signature) where the signature is the species sequence with gamma/alpha '
             'energies rounded to 1 keV and betas abstracted to their sign; a case counts only if port and reference agreed on it' % cases)
-    return verdict(agg, tier, t0, rule, REF_ASSUME, min_eval=1000)
+    return verdict(agg, tier, t0, rule, REF_ASSUME, extra_cov=fz, min_eval=1000)
 
 
 def check_C02(tier):
@@ -106,12 +110,12 @@ def check_C05(tier):
     return verdict(agg, tier, t0, rule, GEN_ASSUME[:2] + ['the name->scheme table (checks/schemes.hpp) is written from the reference dispatch and the README, not from genbbsub.cc'], min_eval=1000)
 
 
-def _fuzz(name, srcs, prop, secs, jobs, agg, max_len=2048, extra=None, timeout_s=10, min_secs_replay=0):
+def _fuzz(name, srcs, prop, secs, jobs, agg, max_len=2048, extra=None, timeout_s=10, min_secs_replay=0, ref=False):
     """engine B: libFuzzer campaign (jobs independent processes, fresh corpus dirs seeded from corpus/<name>/) + replay tier.
     Only crash-/leak- artifacts count; timeout-/oom-/slow-unit- are re-run 3x single-threaded and count only if they reproduce."""
     import re, shutil, hashlib, glob
     from concurrent.futures import ThreadPoolExecutor
-    b = compile_bin(name, srcs, 'fuzz', inc=[os.path.join(ROOT, 'fuzz'), vlib.build_ref()])
+    b = compile_bin(name, srcs, 'fuzz', inc=[os.path.join(ROOT, 'fuzz'), vlib.build_ref()], ref=ref)
     rd = os.path.join(BUILD, 'run', 'fuzz-' + name)
     shutil.rmtree(rd, ignore_errors=True)
     os.makedirs(rd)
@@ -489,6 +493,15 @@ def check_C08(tier):
     extra04 = ['--bkg_evts', '20000' if thorough else '1200', '--dbd_evts', '1500' if thorough else '120']
     agg.add(_gencheck('C04', tier if thorough else 'quick', 'san', extra04, tag='C08-c04'), crash_prop='C08')
     agg.add(_gencheck('C05', 'quick', 'san', ['--evts', '6000' if thorough else '600'], tag='C08-c05'), crash_prop='C08')
+    if thorough:
+        # the remaining generation-path drivers against the sanitized library (C01/C02 differential, C07 histories, C10 operations)
+        b = compile_bin('refdiff', ['checks/refdiff.cc'], 'san', ref=True)
+        agg.add(run_native(b, ['--prop', 'C01', '--seed', str(seed()), '--cases', '3000', '--known', known_tsv('C01')], NCPU, 'C08-c01'), crash_prop='C08')
+        agg.add(run_native(b, ['--prop', 'C02', '--seed', str(seed()), '--grid', 'strat', '--evts', '100', '--known', known_tsv('C02')], NCPU, 'C08-c02'), crash_prop='C08')
+        b = compile_bin('history', ['checks/history.cc'], 'san', libs=['-lrapidcheck'])
+        agg.add(run_native(b, ['--seed', str(seed()), '--cases', '300'], NCPU, 'C08-c07'), crash_prop='C08')
+        b = compile_bin('mdlcheck', ['checks/mdlcheck.cc'], 'san')
+        agg.add(run_native(b, ['--seed', str(seed()), '--cases', '400000'], NCPU, 'C08-c10'), crash_prop='C08')
     # semantic failures of the piggy-backed drivers belong to their own properties: keep only sanitizer findings here
     agg.failures = [f for f in agg.failures if '|crash:' in f['sig']]
     agg.known = {}
